@@ -412,7 +412,11 @@ def oracle_fault(case):
             # the error description on its own, then (unchanged by that) the response
             f = J.Fault(code, message, rpcid=rpcid, config=cfg, data=data)
             desc = f.error()
-            if not gen.strict_eq(gen.norm(desc), {"code": code, "message": message, "data": gen.norm(data)}):
+            # the statement fixes the members of a *response*; a description without data may say data=None or leave it out
+            want_desc = {"code": code, "message": message, "data": gen.norm(data)}
+            if data is None and isinstance(desc, dict) and "data" not in desc:
+                want_desc.pop("data")
+            if not gen.strict_eq(gen.norm(desc), want_desc):
                 fail("C14/fault-members", "Fault.error() is %r for code %r, message %r, data %r" % (desc, code, message, data), case)
             msg = gen.norm(f.dump(version=version))
         else:
